@@ -68,7 +68,7 @@ def run(seed, tier, extra_cases=None, use_cache=True):
                     t[4:] if t.startswith("dev:") else t for t in vlib.parse_tla_value_strings(d))
     jobs = []
     meta = {}
-    nscen = 6 if tier == "quick" else 10
+    nscen = 8 if tier == "quick" else 14
     for i, c in enumerate(cs):
         rid = "r%d" % i
         bc = st["cases"][rid]
@@ -119,6 +119,7 @@ def run(seed, tier, extra_cases=None, use_cache=True):
                 "hooks": [canon_hook(h) for h in b.get("hooks", [])],
                 "statdevs": meta[rid]["statdevs"], "alldsts": meta[rid]["alldsts"],
                 "protocall": (".call(" in st["cases"][rid]["code"]) or (".apply(" in st["cases"][rid]["code"]),
+                "primfault": any(k.startswith("prim:") and (v or {}).get("k") == "throw" for k, v in resp.items()),
                 "reenter": any((v or {}).get("k") == "reenter" for v in resp.values()),
                 "absent": mode == "a", "ns_exists": bool(dd.get("exists")), "ns_keys": [str(x) for x in dd.get("keys", [])],
             })
